@@ -380,13 +380,17 @@ func runE2EScenario(o *hx.Out, r *hx.Rng, idx int) {
 		case strings.HasPrefix(res, "err") && !strings.HasPrefix(res, "err?"):
 			code, _ := strconv.Atoi(res[3:])
 			ok := false
-			for _, id := range srv.failed[code] {
+			// requests of multi-shard operations may still be executing: read under the server's lock
+			srv.mu.Lock()
+			held := append([]int(nil), srv.failed[code]...)
+			srv.mu.Unlock()
+			for _, id := range held {
 				if id == op.id || (id >= 1000000 && (id-1000000)/1000 == op.id) {
 					ok = true
 				}
 			}
 			if !ok {
-				bad("e2e:error-of-another-batch", fmt.Sprintf("%s op %d got %s, that request held %v", op.kind, op.id, res, srv.failed[code]))
+				bad("e2e:error-of-another-batch", fmt.Sprintf("%s op %d got %s, that request held %v", op.kind, op.id, res, held))
 			}
 		case op.kind == "put":
 			if res != fmt.Sprintf("ok:%s:%d", op.key, op.id) {
@@ -466,8 +470,11 @@ func runE2EScenario(o *hx.Out, r *hx.Rng, idx int) {
 	// every operation that was answered ok travelled in exactly one request
 	for _, op := range ops {
 		if op.kind == "put" || op.kind == "del" {
-			if srv.sentIn[op.id] > 1 {
-				bad("e2e:operation-sent-twice", fmt.Sprintf("%s op %d sent in %d requests", op.kind, op.id, srv.sentIn[op.id]))
+			srv.mu.Lock()
+			times := srv.sentIn[op.id]
+			srv.mu.Unlock()
+			if times > 1 {
+				bad("e2e:operation-sent-twice", fmt.Sprintf("%s op %d sent in %d requests", op.kind, op.id, times))
 			}
 		}
 	}
